@@ -19,6 +19,7 @@ from asimap import __version__
 from .auth import PWUser, authenticate
 from .constants import SPECIAL_USE_ATTR_VALUES
 from .exceptions import AuthenticationException, Bad, MailboxInconsistency, No
+from .fetch import quote_str
 from .mbox import Mailbox, NoSuchMailbox
 from .parse import (
     IMAPClientCommand,
@@ -101,6 +102,16 @@ CLIENT_CAPABILITY_EXCLUSIONS: list[dict] = [
 # something it lets them run.)
 #
 COMMAND_TIMEOUT = 120
+
+
+####################################################################
+#
+def _quote(value: str) -> str:
+    """
+    A mailbox name as an IMAP `string` for use in a response line that is
+    built as a `str` (and pushed to the client encoded as latin-1.)
+    """
+    return quote_str(value).decode("latin-1")
 
 
 ########################################################################
@@ -946,7 +957,7 @@ class Authenticated(BaseClientHandler):
             * LIST (\\HasChildren) "/" "projects" ("CHILDINFO" ("SUBSCRIBED"))
         """
         attrs_str = " ".join(sorted(attributes))
-        line = f'* LIST ({attrs_str}) "/" "{mbox_name}"'
+        line = f'* LIST ({attrs_str}) "/" {_quote(mbox_name)}'
         if child_info:
             criteria = " ".join(f'"{c}"' for c in sorted(child_info))
             line += f' ("CHILDINFO" ({criteria}))'
@@ -989,7 +1000,7 @@ class Authenticated(BaseClientHandler):
                 case StatusAtt.UNSEEN:
                     result.append(f"UNSEEN {len(mbox.sequences['unseen'])}")
 
-        return f'* STATUS "{mbox_name}" ({" ".join(result)})\r\n'
+        return f'* STATUS {_quote(mbox_name)} ({" ".join(result)})\r\n'
 
     ####################################################################
     #
@@ -1119,7 +1130,7 @@ class Authenticated(BaseClientHandler):
 
             if lsub:
                 attrs_str = " ".join(sorted(attributes))
-                msg = f'* LSUB ({attrs_str}) "/" "{mbox_name}"\r\n'
+                msg = f'* LSUB ({attrs_str}) "/" {_quote(mbox_name)}\r\n'
             else:
                 msg = self._fmt_list_response(mbox_name, attributes, child_info)
             await self.client.push(msg)
@@ -1183,7 +1194,7 @@ class Authenticated(BaseClientHandler):
                         result.append(f"UNSEEN {len(mbox.sequences['unseen'])}")
 
         await self.client.push(
-            f'* STATUS "{cmd.mailbox_name}" ({" ".join(result)})\r\n'
+            f'* STATUS {_quote(cmd.mailbox_name)} ({" ".join(result)})\r\n'
         )
 
     ##################################################################
